@@ -490,6 +490,29 @@ done
 check "(k) $N kill runs: SIGKILL each time, log has exactly k+1 lines" \
     test "$bad" -eq 0
 
+# ---------------------------------------------------------------- (l)
+
+echo "--- (l) VSHIM_FSIZE: kernel file size limit (reaches the write(2) of stdio)"
+fresh l
+# a message larger than the log will ever be small: 20000 bytes of body
+awk 'BEGIN { printf "To: user@example.com\nSubject: big\n\n"; for (i = 0; i < 400; i++) printf "line %04d of the body, filling up to fifty chars..\n", i }' >"$W/src/new/1.host"
+cp "$W/src/new/1.host" "$W/orig"
+conf "maildir \"$W/src\" { match all label \"x\" exec stdin { \"$HELPER\" } }"
+mds VSHIM_LOG="$W/log" EXECHELPER_OUT="$W/eh" VSHIM_TMPNAMES=1 VSHIM_FSIZE=5000
+check "(l) limit inside the rewritten file: mdsort reports the failure" sh -c "
+    test $RC -ne 0 && grep -q 'File too large' '$W/err'"
+check "(l) original untouched, no truncated file left" sh -c "
+    test \$(ls '$W/src/new' | wc -l) -eq 1 && cmp '$W/orig' '$W'/src/new/*"
+check "(l) the log itself is not subject to the limit: sequential" sequential "$W/log"
+check "(l) the log itself is not subject to the limit: ends with the last close" sh -c "
+    test \$(wc -c <'$W/log') -gt 500 && tail -n 1 '$W/log' | grep -q ' = '"
+fresh l2
+cp "$T/l/orig" "$W/src/new/1.host"
+conf "maildir \"$W/src\" { match all exec stdin { \"$HELPER\" } }"
+mds VSHIM_LOG="$W/log" EXECHELPER_OUT="$W/eh" VSHIM_TMPNAMES=1 VSHIM_FSIZE=100
+check "(l) the forked command runs without the limit (record of 40000+ bytes written)" sh -c "
+    test $RC -eq 0 && test \$(wc -c <'$W/eh') -gt 40000"
+
 # ---------------------------------------------------------------- summary
 
 echo "--- $npass passed, $nfail failed"
